@@ -130,5 +130,10 @@ func main() {
 		}
 		enc.Encode(ol)
 		w.Flush()
+		if res.Counters["fatal"] > 0 {
+			// the process state is unusable after a hang
+			w.Flush()
+			os.Exit(5)
+		}
 	}
 }
